@@ -13,7 +13,7 @@ import numpy as np
 import chi
 
 from ..core import tol
-from ..core.engine import Part
+from ..core.engine import Part, key_of
 from ..gen import hier, popbuild, popvals
 from ..ref import populations as rp
 
@@ -171,12 +171,69 @@ def w_hier(case):
                          'differ from the likelihood\'s', 'expected': e_names,
                          'observed': list(post.get_parameter_names(
                              include_ids=True))})
+    # the population model the likelihood works with is renamed afterwards: the
+    # names the likelihood publishes for the population-level positions are the
+    # names that model reports NOW
+    if not viol and not case.get('rename_reset'):
+        try:
+            pm_.set_dim_names(['late %d' % k_ for k_ in range(pm_.n_dim())])
+            late_top = list(hl.get_parameter_names(exclude_bottom_level=True))
+            late_pm = list(pm_.get_parameter_names())
+            if late_top != late_pm:
+                viol.append({'sub': 'names_late', 'message': 'after the population '
+                             'model was given other dimension names the likelihood '
+                             'publishes other population-level names than its '
+                             'population model (%s)' % lab, 'expected': late_pm,
+                             'observed': late_top, 'behaviour': 'names_late'})
+        except NotImplementedError:
+            pass
     return {'transitions': ntr, 'outcome': tol.rnd([got, got2]),
             'violations': viol}
 
 
+def w_empty(case):
+    """An individual without measurements still is an individual: the hierarchical
+    value is the sum of the individuals' own log-likelihood objects at their
+    parameters (whatever those return) plus the population density."""
+    from ..gen.toymodel import ToyModel
+    viol = []
+    n_ids = 3
+    data = [([0.3, 1.1], [1.2, 2.0]), ([0.5, 0.9, 1.7], [1.0, 1.6, 2.4]),
+            ([0.7], [1.5])]
+    lls = []
+    for i_, (t_, y_) in enumerate(data):
+        if i_ == case['empty']:
+            t_, y_ = [], []
+        lls.append(chi.LogLikelihood(ToyModel(2, 1), chi.GaussianErrorModel(),
+                                     y_, t_))
+    spec = rp.Comp([rp.LN(1), rp.P(1), rp.G(1)])
+    pop = popbuild.build(spec, None)
+    hl = chi.HierarchicalLogLikelihood(lls, pop)
+    # bottom: (p0, sigma) per individual; top: LN(log mean, log std), pooled p1,
+    # G(mean, std) of sigma
+    sig = [0.5, 0.7, 0.6]
+    sig[case['empty']] = case['sigma']
+    bottom = [[0.9, sig[0]], [1.2, sig[1]], [0.7, sig[2]]]
+    top = [0.1, 0.4, 0.8, 0.5, 0.6]
+    vec = np.array([v for row in bottom for v in row] + top)
+    psi = [[b[0], top[2], b[1]] for b in bottom]
+    parts = [float(ll_(np.array(p_))) for ll_, p_ in zip(lls, psi)]
+    obs = np.array([[b[0], top[2], b[1]] for b in bottom])
+    exp = sum(parts) + float(np.real(rp.logpop(spec, np.array(top), obs, None)))
+    got = [float(hl(vec.copy())), float(hl.evaluateS1(vec.copy())[0])]
+    if not all(tol.close(g_, exp) for g_ in got):
+        viol.append({'sub': 'empty_individual', 'message': 'with an individual '
+                     'without measurements (sigma %s) the hierarchical value is '
+                     'not the sum of the individuals\' own log-likelihoods plus the '
+                     'population density' % case['sigma'], 'expected': exp,
+                     'observed': got, 'parts': parts,
+                     'behaviour': 'empty_individual'})
+    return {'transitions': 6, 'outcome': key_of([case, tol.rnd(got)]),
+            'violations': viol}
+
+
 WORKERS = {'compositions': w_hier, 'reduced': w_hier, 'ids': w_hier,
-           'int_vectors': w_hier, 'nested': w_hier}
+           'int_vectors': w_hier, 'nested': w_hier, 'empty_individual': w_empty}
 
 
 def build(tier, seed):
@@ -323,8 +380,13 @@ def build(tier, seed):
         for spec in (rp.Comp([rp.G(1), rp.P(1), rp.H(1)]), rp.LN(3, False)):
             for n_ids in (1, 2, 3):
                 idc.append(hier.make_case(spec, n_ids, seed, ids=ids[:n_ids]))
+    empties = [{'empty': e_, 'sigma': sg_} for e_ in (0, 1, 2)
+               for sg_ in (0.6, -0.3, 0.0)]
     return {
         'parts': [
+            Part('empty_individual', empties, w_empty,
+                 'one of three individuals without measurements, its noise scale '
+                 'inside / outside the domain'),
             Part('compositions', cases, w_hier,
                  'all sub-model sequences with dims summing to the bottom dimension'),
             Part('reduced', red, w_hier,
